@@ -288,13 +288,15 @@ pub fn c01(big: bool) -> BoxedStrategy<Case> {
         1 => stream_spawn(),
     ];
     let w = OpWeights { call_drop: 3, restart: 2, ..MSG_WEIGHTS };
-    let op = mixed_ops(w, vec![(3, (any::<u8>(), 0u8..4).prop_map(|(stream, n)| ClientOp::Feed { stream, n }).boxed())]);
-    (spawn, started_with_timers(2), 1usize..=4)
+    let op = mixed_ops(w, vec![(3, (any::<u8>(), 0u8..4).prop_map(|(stream, n)| ClientOp::Feed { stream, n }).boxed()), (3, export_weak_op())]);
+    (spawn, (started_with_timers(2), slow_callback()), 1usize..=4)
         .prop_flat_map(move |(spawn, started, n)| {
             let owning = spawn.owning();
             (Just(spawn), Just(started), grants(n, owning, 1), vec(vec(op.clone(), 3..=max_ops), n..=n), schedule(if big { 96 } else { 48 }))
         })
-        .prop_map(|(spawn, started, grants, clients, schedule)| {
+        .prop_map(|(spawn, (mut started, slow), grants, clients, schedule)| {
+            // messages can arrive while `started` is still suspended
+            started.extend(slow);
             let beh = Behavior { started, ..Default::default() };
             let mut c = Case {
                 family: Family::C01,
@@ -346,7 +348,8 @@ pub fn c02(big: bool) -> BoxedStrategy<Case> {
         (5, (h(), work(2, 6), 1u8..4).prop_map(|(h, work, extra)| ClientOp::SendRepoll { h, work, extra }).boxed()),
         (2, h().prop_map(|h| ClientOp::JoinStash { h }).boxed()),
     ]);
-    (plain_spawn(false), cause, 1usize..=4)
+    let op = mixed_ops_boxed(op, vec![(3, (any::<u8>(), 0u8..4).prop_map(|(stream, n)| ClientOp::Feed { stream, n }).boxed()), (1, (any::<u8>(), 90u8..140).prop_map(|(stream, n)| ClientOp::Feed { stream, n }).boxed()), (1, any::<u8>().prop_map(|stream| ClientOp::EndStream { stream }).boxed())]);
+    (prop_oneof![7 => plain_spawn(false), 1 => stream_spawn()], cause, 1usize..=4)
         .prop_flat_map(move |(spawn, cause, n)| {
             let owning = spawn.owning();
             (Just(spawn), Just(cause), grants(n, owning, 2), vec(vec(op.clone(), 3..=max_ops), n..=n), schedule(if big { 96 } else { 48 }))
@@ -528,7 +531,7 @@ pub fn c03(big: bool) -> BoxedStrategy<Case> {
 pub fn c04(big: bool) -> BoxedStrategy<Case> {
     let max_ops = if big { 14 } else { 9 };
     let base = OpWeights { stop: 7, halt: 4, try_stop: 5, await_: 7, drop: 0, give: 2, join: 3, consume: 2, restart: 2, max_sleep: 4, send: 28, call: 24, ping: 5, convert: 8, ..MSG_WEIGHTS };
-    let op = mixed_ops(base, vec![(8, msg_op(1, 1, ctx_work(3, 3, 0)))]);
+    let op = mixed_ops(base, vec![(8, msg_op(1, 1, ctx_work(3, 3, 0))), (2, h().prop_map(|h| ClientOp::JoinLazyDetach { h }).boxed()), (2, Just(ClientOp::AwaitLazy).boxed())]);
     let spawn = prop_oneof![
         8 => plain_spawn(true),
         2 => (mailbox(), 2u32..6, any::<bool>(), any::<bool>()).prop_map(|(mailbox, t, owning, fail_on_timeout)| SpawnSpec::Build { mailbox, strategy: RStrat::Default, timeout: Some(t), fail_on_timeout, owning }),
@@ -595,6 +598,7 @@ pub fn c05(big: bool) -> BoxedStrategy<Case> {
                                 (4, (any::<u8>(), 0u8..4).prop_map(|(stream, n)| ClientOp::Feed { stream, n }).boxed()),
                                 (1, (any::<u8>(), 90u8..140).prop_map(|(stream, n)| ClientOp::Feed { stream, n }).boxed()),
                                 (4, export_weak_op()),
+                                (2, h().prop_map(|h| ClientOp::JoinLazyDetach { h }).boxed()),
                             ],
                         ),
                         2..=max_ops,
@@ -661,7 +665,11 @@ pub fn c12(big: bool) -> BoxedStrategy<Case> {
         3 => Just(vec![]),
         2 => vec((prop_oneof![Just(TimerKind::Interval), Just(TimerKind::IntervalWith)], 1u32..=8).prop_map(|(kind, ticks)| Step::AddTimer(TimerSpec { kind, ticks, work: vec![] })), 1..=2),
     ];
-    let base_op = mixed_ops(base, vec![(10, (h(), work(2, 6), 1u8..4).prop_map(|(h, work, extra)| ClientOp::SendRepoll { h, work, extra }).boxed())]);
+    let ctx_weak_sender = (h(), any::<bool>()).prop_map(|(h, call)| {
+        let work = vec![Step::ExportWeak(HKind::WeakSender)];
+        if call { ClientOp::Call { h, work } } else { ClientOp::Send { h, work } }
+    });
+    let base_op = mixed_ops(base, vec![(10, (h(), work(2, 6), 1u8..4).prop_map(|(h, work, extra)| ClientOp::SendRepoll { h, work, extra }).boxed()), (3, ctx_weak_sender.boxed())]);
     // 0 = nothing special, 1 = flood of an unbounded mailbox, >= 3000 = one message that takes that long
     let special = prop_oneof![90 => Just(0u32), 4 => Just(1u32), 6 => 3001u32..9000];
     (spawn, timers, 1usize..=4, special)
@@ -723,7 +731,7 @@ pub fn c07(big: bool) -> BoxedStrategy<Case> {
         let work = vec![Step::AddTimer(t)];
         if call { ClientOp::Call { h, work } } else { ClientOp::Send { h, work } }
     });
-    let op = mixed_ops(base, vec![(10, msg_op(1, 1, ctx_work(3, 0, 4))), (5, timer_in_handler.boxed())]);
+    let op = mixed_ops(base, vec![(10, msg_op(1, 1, ctx_work(3, 0, 4))), (5, timer_in_handler.boxed()), (4, export_weak_op())]);
     let stopped = prop_oneof![3 => slow_callback(), 1 => light_timer().prop_map(|t| vec![Step::AddTimer(t)]), 1 => (light_timer(), 1u32..3).prop_map(|(t, d)| vec![Step::Sleep(d), Step::AddTimer(t)])];
     (spawn, start_fail, (started_with_timers(2), stopped, slow_callback()), 1usize..=3)
         .prop_flat_map(move |(spawn, start_fail, started, n)| {
@@ -1013,7 +1021,7 @@ pub fn c17(big: bool) -> BoxedStrategy<Case> {
         1 => prop_oneof![Just(FailHow::Err), Just(FailHow::Panic)].prop_map(Cause::RestartFail),
     ];
     let base = OpWeights { send: 22, call: 22, ping: 4, convert: 10, yield_: 4, sleep: 3, give: 2, drop: 3, stop: 6, halt: 1, await_: 2, join: 12, consume: 4, detach: 3, restart: 3, max_sleep: 4, ..MSG_WEIGHTS };
-    let op = mixed_ops(base, vec![(5, msg_op(1, 1, ctx_work(3, 3, 0))), (3, h().prop_map(|h| ClientOp::JoinStash { h }).boxed()), (3, h().prop_map(|h| ClientOp::JoinDiscard { h }).boxed()), (3, h().prop_map(|h| ClientOp::JoinLazyDetach { h }).boxed()), (4, Just(ClientOp::AwaitLazy).boxed())]);
+    let op = mixed_ops(base, vec![(5, msg_op(1, 1, ctx_work(3, 3, 0))), (3, h().prop_map(|h| ClientOp::JoinStash { h }).boxed()), (3, h().prop_map(|h| ClientOp::JoinDiscard { h }).boxed()), (3, h().prop_map(|h| ClientOp::JoinLazyDetach { h }).boxed()), (3, h().prop_map(|h| ClientOp::JoinPollDrop { h }).boxed()), (4, Just(ClientOp::AwaitLazy).boxed()), (2, (any::<u8>(), 0u8..3).prop_map(|(stream, n)| ClientOp::Feed { stream, n }).boxed()), (2, any::<u8>().prop_map(|stream| ClientOp::EndStream { stream }).boxed())]);
     (spawn, cause, 1usize..=3, slow_callback())
         .prop_flat_map(move |(spawn, cause, n, stopped)| (Just(spawn), Just((cause, stopped)), grants(n, true, 1), vec(vec(op.clone(), 3..=max_ops), n..=n), schedule(if big { 96 } else { 48 })))
         .prop_map(|(mut spawn, (cause, stopped), grants, clients, schedule)| {
@@ -1277,6 +1285,7 @@ pub fn c09(big: bool) -> BoxedStrategy<Case> {
             if call { ClientOp::Call { h, work } } else { ClientOp::Send { h, work } }
         }),
         3 => (h(), work(1, 2)).prop_map(|(h, work)| ClientOp::Send { h, work }),
+        1 => (h(), 3001u32..7000).prop_map(|(h, d)| ClientOp::Send { h, work: vec![Step::Sleep(d)] }),
         5 => Just(ClientOp::Yield),
         4 => (0u32..3).prop_map(ClientOp::Sleep),
     ];
